@@ -16,6 +16,12 @@ Proved (for every buffer content, step time and prior inputs):
 * `begin_consumes_inputs` : the inputs handed to `step` are `stepInputs` of the state in which the
   step begins, and beginning the step empties the set_data inputs and the due part of the buffer
 
+Whole runs, flat configurations (`Sched/Buffer.lean`):
+* `no_late_arrival` : in every reachable state every value waiting in a simulator's input buffer is
+  due strictly after every step that simulator has begun — nothing arrives too late to be delivered
+* `taken_at_first_due_step` : when a simulator begins a step, every buffered value the step takes
+  (due at or before it) is due after all its earlier steps: the step is the destination's first step
+  at or after the value's due time; and what stays in the buffer is not yet due
 NOT proved: the refinement of whole runs to the history specification (`push_refines_spec`,
 `pull_refines_spec`) — decided by the specification monitor on implementation traces (clean class)
 and by the correspondence; the known findings D8, D12, D14, event-with-initial-data and
@@ -23,6 +29,7 @@ non-monotone output times are exactly where that refinement fails (see known_fin
 -/
 import MosaikProofs.Lemmas.Data
 import MosaikProofs.Sched.Reach
+import MosaikProofs.Sched.Buffer
 namespace Mosaik.C03
 open Mosaik
 
@@ -152,5 +159,54 @@ theorem persistent_only_existing_keys (cfg : Cfg) (s : State) (p : Sid) (c : TT)
   intro e _
   simp only [Function.comp]
   split <;> rfl
+
+/-! ### whole runs (flat configurations) -/
+
+/-- nothing arrives too late: buffered values are due after every step the destination has begun -/
+theorem no_late_arrival {cfg : Cfg} (hw : WFCfg cfg) (hs : WFShape cfg) {rank : Sid → Nat} (hfl : Flat cfg rank) (hpo : PushOk cfg)
+    {s : State} (hr : Reach cfg s) (hnf : s.failed = none) {q : Sid} (hq : q < cfg.n) :
+    ∀ e ∈ (s.sims q).buffer, ∀ b ∈ (s.sims q).begun, TT.time b < e.time :=
+  reach_bufOk hw hs hfl hpo hr hnf q hq
+
+/-- the step that takes a buffered value is the destination's first step at or after the value's due time, and
+what it leaves in the buffer is not yet due -/
+theorem taken_at_first_due_step {cfg : Cfg} (hw : WFCfg cfg) (hs : WFShape cfg) {rank : Sid → Nat} (hfl : Flat cfg rank)
+    (hpo : PushOk cfg) {s s' : State} {q : Sid} (hr : Reach cfg s) (hnf0 : s.failed = none) (hq : q < cfg.n)
+    (h : step cfg s (.deps q) = some s') (hnf : s'.failed = none) :
+    ∃ c, (s'.sims q).cur = some c ∧
+      (∀ e ∈ (s.sims q).buffer, e.time ≤ TT.time c → ∀ b ∈ (s.sims q).begun, TT.time b < e.time) ∧
+      (∀ e ∈ (s'.sims q).buffer, TT.time c < e.time) := by
+  rcases step_frame hw (reach_good hw hr) h hnf with hl | ⟨p, c, hp, _, _, _, _, _, _, _, _, hbeg, hcur, _⟩
+  · -- a `deps` action that does not fail begins a step
+    exfalso
+    have := reach_bufOk hw hs hfl hpo (Reach.step hr h) hnf q hq
+    simp only [step, stepDeps] at h
+    split at h
+    · cases hpc : (s.sims q).pc with
+      | waitDeps t =>
+        simp only [hpc] at h
+        split at h
+        · cases hn : (s.sims q).next with
+          | nil => simp [hn] at h
+          | cons c rest =>
+            simp only [hn, Option.some.injEq] at h
+            subst h
+            have h1 := hl.begun q
+            rw [(beginStep_bb cfg s q c rest hnf).2] at h1
+            simp at h1
+        · cases h
+      | init => simp [hpc] at h
+      | awaitSettle a dl => simp [hpc] at h
+      | inStep => simp [hpc] at h
+      | inGet => simp [hpc] at h
+      | done => simp [hpc] at h
+    · cases h
+  · cases hp
+    refine ⟨c, hcur, ?_, ?_⟩
+    · intro e he _ b hb
+      exact reach_bufOk hw hs hfl hpo hr hnf0 q hq e he b hb
+    · intro e he
+      have := reach_bufOk hw hs hfl hpo (Reach.step hr h) hnf q hq e he c (by rw [hbeg]; exact List.mem_cons_self)
+      exact this
 
 end Mosaik.C03
